@@ -111,7 +111,7 @@ Fixpoint wfL (v : dval) : bool :=
    SIGNATURE-typed values) satisfies the grammar clauses of Spec.wf *)
 Fixpoint sigs_strict (v : dval) : bool :=
   match v with
-  | VSigv s _ => sigval_ok s
+  | VSigv s np => sigval_ok s np
   | VVariant x => sigs_strict x && single_ok (vsig x)
   | VArray el l => single_ok el && forallb sigs_strict l
   | VDict k vs l => is_basic k && single_ok vs && forallb (fun p => sigs_strict (fst p) && sigs_strict (snd p)) l
@@ -137,10 +137,9 @@ Theorem wf_split : forall v, wf v = wfL v && sigs_strict v.
 Proof.
   induction v using dval_ind'.
   - destruct v; try contradiction; cbn [wf wfL sigs_strict]; rewrite ?andb_true_r; try reflexivity.
-    destruct (sigval_ok s) eqn:Hs.
+    destruct (sigval_ok s np) eqn:Hs.
     + assert (Hl : (len (sig_text s np) <=? 255) = true).
-      { apply N.leb_le. unfold sigval_ok in Hs. apply andb_true_iff in Hs as [_ Hs]. apply N.leb_le in Hs.
-        pose proof (len_sig_text s np). lia. }
+      { unfold sigval_ok in Hs. apply andb_true_iff in Hs as [_ Hs]. exact Hs. }
       rewrite Hl. cbn [andb]. now rewrite andb_true_r.
     + now rewrite andb_false_r.
   - cbn [wf wfL sigs_strict]. rewrite IHv.
